@@ -474,6 +474,10 @@ def coerce(val: SV, ty: Ty) -> SV:
         return SV(INT, z3.If(val.v, 1, 0))
     if k == "tuple" and val.ty.kind == "tuple" and len(ty.items) == len(val.v):
         return SV(ty, tuple(coerce(x, t) for x, t in zip(val.v, ty.items)))
+    if k == "set" and val.ty.kind == "set" and val.ty.sorts() == ty.sorts():
+        return SV(ty, val.v)
+    if k == "seq" and val.ty.kind == "seq" and val.ty.sorts() == ty.sorts():
+        return SV(ty, val.v)
     if k == "any":
         if val.ty.kind == "any":
             return val
